@@ -1,7 +1,7 @@
 """Registry: build configurations, injection sites, harnesses, checks."""
 
-JOBS = 6          # concurrent CBMC processes per check (memory bound: winners use 1-3 GB)
-MEM_GB = 20       # RLIMIT_AS per process
+JOBS = 5          # concurrent CBMC processes per check (memory bound: winners use 1-8 GB)
+MEM_GB = 36       # RLIMIT_AS per process
 
 # slice/array `==` is CBMC's builtin memcmp loop: give that one loop its own bound so that the global
 # unwinding bound of a harness can stay small (largest compared object: 64 bytes)
@@ -16,6 +16,7 @@ WRAP_CFG = {
         r"^<core::io::error::repr::Repr as std::ops::Drop>::drop$",
         # zeroization of byte buffers (memory hygiene; no property observes it, no code reads a buffer after zeroizing it)
         r"^<std::slice::IterMut<'_, u8> as zeroize::Zeroize>::zeroize$",
+        r"^zeroize::volatile_set::<",
     ],
     # fixed-size byte loops of the real code get their own bound (32-byte secrets, 16-byte tags)
     "unwindset": [
@@ -24,10 +25,14 @@ WRAP_CFG = {
     ],
 }
 WRAP_ASSUMPTIONS = [
-    "cut: bodies of the drop glue of error values (crate Error, CryptoCoreError, io::Error) removed from the goto program "
-    "(freeing an error is unobservable; their recursive drop glue through Box<dyn Error> is intractable)",
-    "per-loop unwinding bounds: memcmp 70, primitives::xor_2 / xor_in_place 33; all other loops use the harness bound; "
-    "unwinding assertions on",
+    "cut: bodies of the drop glue of error values (crate Error, CryptoCoreError, io::Error) and of byte-buffer zeroization "
+    "are emptied in the goto program (freeing an error / wiping a dead buffer is unobservable; the recursive drop glue "
+    "through Box<dyn Error> is intractable)",
+    "per-loop unwinding bounds: memcmp (per harness, <= 70), primitives::xor_2 / xor_in_place 33, loops over tracers 3; "
+    "all other loops use the harness' #[kani::unwind]; unwinding assertions are on, so a too-small bound is an error",
+    "Kani's C allocator model is replaced by a size-class variant (requests <= 64 / <= 512 bytes get 64 / 512-byte "
+    "objects): heap objects have constant sizes for CBMC; over-allocation can only hide an out-of-bounds access that "
+    "stays inside the slack of one object (memory safety of dependencies' unsafe code is not the subject here)",
 ]
 
 GUARD = "cosmian_cover_crypt_verif"
@@ -35,25 +40,50 @@ GUARD = "cosmian_cover_crypt_verif"
 BUILDS = {
     # the crate exactly as users build it (default features)
     "real": {"cargo_args": [], "kani_args": []},
-    # the crate's own logic over model leaves (feature added by the guarded hook commit in /repo)
+    # the crate's own logic over model leaves (feature added by the guarded hook commits in /repo)
     # (Kani's per-assertion reachability covers are switched off there: every cover costs one more SAT call on
     # a multi-million-clause instance; vacuity is guarded by the harnesses' own kani::cover! witnesses)
     "model": {"cargo_args": ["--no-default-features", "--features", GUARD], "kani_args": ["--no-assertion-reach-checks"]},
 }
 
-# Where harness modules are injected: `parent` gets `#[cfg(kani)] mod verif_k;` appended, the harness file is
-# copied next to it. Child modules see the private items of their parent.
+MODEL_ASSUMPTIONS = [
+    "model (feature cosmian_cover_crypt_verif): group = (Z_13,+) with generator 1 under Kani (Z_251 natively), scalars and "
+    "hash-to-scalar non-zero; exact ring/group laws, no secrecy modelled",
+    "model: ML-KEM replaced by an ideal KEM with implicit rejection (2-byte keys, 4-byte encapsulations)",
+    "model: Sha3/Kmac replaced by a random-oracle table: equal inputs give equal outputs, a new input gets an arbitrary "
+    "output assumed collision-free (bytes 0..16 and 16..48) against all earlier outputs; at most 16 distinct queries, "
+    "inputs <= 112 bytes per harness",
+    "model: std HashMap/HashSet replaced by insertion-ordered association lists with inline capacity 3 under Kani "
+    "(hash-dependent iteration order is not modelled; where order matters the harness enumerates the orders)",
+    "model validation: the repository's own test suite passes natively over the models (32 of 33 tests; test_r25519 "
+    "is specific to the real curve)",
+]
+
+# Where harness modules are injected: `parent` gets `#[cfg(kani)] mod <modname>;` appended, the harness file is
+# copied next to it. Child modules see the private items of their ancestors.
 SITES = {
     "revision_vec": dict(file="revision_vec.rs", parent="src/data_struct/revision_vec.rs",
                          modpath="data_struct::revision_vec::verif_k"),
     "primitives_model": dict(file="primitives_model.rs", include=["common.rs"], parent="src/core/primitives.rs",
                              modpath="core::primitives::verif_k"),
+    "keys_model": dict(file="keys_model.rs", include=["common.rs"], parent="src/core/primitives.rs",
+                       modpath="core::primitives::verif_k2", modname="verif_k2"),
+    "access_policy": dict(file="access_policy.rs", include=["common.rs"], parent="src/abe_policy/access_policy.rs",
+                          modpath="abe_policy::access_policy::verif_k"),
+    "serialization_model": dict(file="serialization_model.rs", include=["common.rs"],
+                                parent="src/core/serialization/mod.rs", modpath="core::serialization::verif_k"),
+    "policy_model": dict(file="policy_model.rs", include=["common.rs"], parent="src/abe_policy/access_structure.rs",
+                         modpath="abe_policy::access_structure::verif_k"),
 }
 
 COMMON_ASSUMPTIONS = [
     "Kani 0.68 / CBMC 6.11 / cadical are sound for the Rust semantics they model (dev-profile MIR, overflow checks on)",
     "bounded model checking: the claim covers exactly the shapes/sizes listed in 'bounds'; unwinding assertions are on",
 ]
+
+CMP34 = [[r"^memcmp$", 34]]     # largest compared object: a 32-byte signature / secret
+SMALL_CMP = [[r"^memcmp$", 4]]  # right names <= 2 bytes, toy KEM keys 2 bytes: no 32-byte comparison in these harnesses
+TRAP_LOOPS = [[r"toy_group::ToyPoint|toy_group::ToyScalar", 3]]  # loops over traps / markers: tracing level 1 = 2 elements
 
 HARNESSES = {}
 
@@ -62,40 +92,202 @@ def H(name, site, props, tier="quick", **kw):
     HARNESSES[name] = dict(site=site, props=props, tier=tier, **kw)
 
 
-# ---------------------------------------------------------------- RevisionVec (C04 R-iter, C01 L-iter, C14 U-use)
-_riter_funcs = "RevisionVec::revisions, RevisionIterator::next, RevisionVec::insert_new_chain"
-for shape, tier in [("1", "quick"), ("2", "quick"), ("1_1", "quick"), ("2_1", "quick"), ("1_2", "quick"),
-                    ("2_2", "quick"), ("3_1", "thorough"), ("1_3", "thorough"), ("2_3", "thorough"),
+# ================================================================ RevisionVec (real build)
+for shape, tier in [("1", "thorough"), ("2", "quick"), ("1_1", "thorough"), ("2_1", "quick"), ("1_2", "quick"),
+                    ("2_2", "thorough"), ("3_1", "thorough"), ("1_3", "thorough"), ("2_3", "thorough"),
                     ("1_2_1", "thorough"), ("2_1_2", "thorough"), ("1_1_2", "thorough")]:
     H("riter_shape_" + shape, "revision_vec", ["C04", "C01"], tier,
-      desc="revisions() yields, at depth d, exactly the d-th element of every chain that has one, then ends",
-      bounds="RevisionVec<u8,u8>, chain lengths (%s) concrete, all keys and element values symbolic" % shape.replace("_", ","),
-      unwind=5, timeout=900, covers=["all depths visited"])
+      desc="RevisionVec::revisions() yields, at depth d, exactly the d-th element of every chain that has one, then ends "
+           "(decapsulation walks user secrets with it)",
+      bounds="RevisionVec<u8,u8> instantiation, chain lengths (%s) concrete, all keys and element values symbolic" % shape.replace("_", ","),
+      unwind=4 if len(shape) <= 3 and "3" not in shape else 5, timeout=900, covers=["all depths visited"])
 H("riter_zero_chains_terminates", "revision_vec", ["C14", "C04"], "quick",
-  desc="revisions() on a key with zero chains ends immediately (no endless Some([]))",
+  desc="revisions() on a key with zero chains ends immediately (no endless Some([]) in decaps)",
   bounds="empty RevisionVec<u8,u8>", unwind=3, timeout=300, covers=["reached"])
 
-SMALL_CMP = [[r"^memcmp$", 4]]  # right names <= 2 bytes, toy KEM keys 2 bytes: no 32-byte comparison in these harnesses
-SITES["keys_model"] = dict(file="keys_model.rs", include=["common.rs"], parent="src/core/primitives.rs",
-                           modpath="core::primitives::verif_k2", modname="verif_k2")
-for _n in ["k_refresh_m1_u00", "k_refresh_m2_u11", "k_refresh_m1_u11", "k_refresh_m1_u12", "k_refresh_m2_u13",
-           "k_refresh_m1_u02", "k_refresh_drops_unknown_right", "k_rekey_chain1", "k_rekey_chain2",
-           "k_mpk_publishes_activated_fronts", "k_rekey_unknown_last", "k_rekey_unknown_first", "k_prune_chain2",
-           "k_update_existing_right", "k_update_new_right", "k_update_fails_bad_first", "k_update_fails_bad_last"]:
-    H(_n, "keys_model", ["G2"], "quick", build="model", timeout=900, desc="probe", bounds="probe", loops=SMALL_CMP)
+# ================================================================ KEM core over models
+K_BOUNDS = ("tracing level 1 (2 tracers), 1 target right, user key with 1 right x 1 secret; all scalars, the seed S, "
+            "every RNG draw and every random-oracle output symbolic")
+H("g1_kem_classic_1x1", "primitives_model", ["C01"], "quick", build="model", unwind=2, timeout=1500, loops=TRAP_LOOPS,
+  desc="c_encaps then decaps with the matching classic secret returns exactly the encapsulated secret",
+  bounds=K_BOUNDS, covers=["decaps returned Some"])
+H("g1_kem_hybrid_1x1", "primitives_model", ["C01", "C11"], "thorough", build="model", unwind=2, timeout=1800,
+  loops=TRAP_LOOPS + [[r"toy_kem::session_key", 3]],
+  desc="h_encaps yields a hybridized encapsulation; decaps with the matching hybridized secret returns the same secret",
+  bounds=K_BOUNDS + "; ideal KEM keys symbolic")
+H("s_kem_classic_unauthorized", "primitives_model", ["C02"], "quick", build="model", unwind=2, timeout=1500, loops=TRAP_LOOPS,
+  desc="decaps with a key whose only secret differs from the target's returns None, never a secret",
+  bounds=K_BOUNDS + "; user secret y != target secret x", covers=["decaps returned None"])
+H("n_classic_single_tamper", "primitives_model", ["C07"], "quick", build="model", unwind=2, timeout=1800, loops=TRAP_LOOPS,
+  desc="an honest classic encapsulation with one component altered (any tag byte, any byte of the masked seed, any trap; "
+       "symbolic position and delta) is never opened by the authorized key",
+  bounds=K_BOUNDS, covers=["tag altered", "masked seed altered", "trap altered"])
+H("h_select_subkeys_mode", "primitives_model", ["C11", "C09"], "quick", build="model", unwind=4, timeout=1500, loops=SMALL_CMP,
+  desc="MasterPublicKey::select_subkeys: the encapsulation is hybridized iff every targeted right is; a right with no "
+       "published key is an error",
+  bounds="public key with 2 rights of symbolic flavours, 1 or 2 targets (symbolic)")
+H("v_generate_user_id_relation", "primitives_model", ["C17", "C16"], "quick", build="model", unwind=4, timeout=1800, loops=SMALL_CMP,
+  desc="generate_user_id: id registered, sum a_i*t_i = s, ids from different draws differ; refresh_id refuses an "
+       "unknown id and keeps a known id of the right level",
+  bounds="tracing level 1; s, tracers, RNG draws symbolic (Z_13)", covers=["id generated"])
+H("f_verify_detects_value_changes", "primitives_model", ["C08"], "quick", build="model", unwind=4, timeout=1500, loops=CMP34,
+  desc="sign/verify: an issued key verifies; any change of a marker, a secret, the right's name (same shape) or any "
+       "signature byte is rejected",
+  bounds="1 marker, 1 right with a 1-byte name and 1 classic secret; all values symbolic",
+  covers=["only the right's name differs", "signature byte flipped"], heavy=True)
+H("f_sign_order_matters", "primitives_model", ["C08"], "quick", build="model", unwind=4, timeout=1500, loops=CMP34,
+  desc="reordering the rights of a key changes its signature",
+  bounds="2 rights with 1-byte names, 1 secret each; all values symbolic", covers=["both signed"], heavy=True)
+H("f_sign_reframing_chain_split", "primitives_model", ["C08"], "quick", build="model", unwind=4, timeout=1500, loops=CMP34,
+  desc="re-framing: {n:[k1,k2]} and {n:[k1], '':[k2]} must not share a signature",
+  bounds="names <= 1 byte, 2 classic secrets; all values symbolic", covers=["both signed"], heavy=True)
 
-TRAP_LOOPS = [[r"toy_group::ToyPoint|toy_group::ToyScalar", 3]]  # loops over traps / markers: tracing level 1 = 2 elements
-H("g1_kem_classic_1x1", "primitives_model", ["G1"], "quick", build="model", unwind=2, timeout=900, loops=TRAP_LOOPS,
-  desc="probe", bounds="probe", covers=["decaps returned Some"])
+# ================================================================ key layer over models (no hashing)
+KL = "master key built by struct literal: "
+_k = dict(build="model", timeout=900, loops=SMALL_CMP)
+for n, m, a, b, tier, props in [
+        ("k_refresh_m1_u00", 1, 0, 0, "thorough", ["C04", "C05"]), ("k_refresh_m2_u11", 2, 1, 1, "quick", ["C04"]),
+        ("k_refresh_m1_u11", 1, 1, 1, "thorough", ["C05"]), ("k_refresh_m1_u12", 1, 1, 2, "quick", ["C05"]),
+        ("k_refresh_m2_u13", 2, 1, 3, "quick", ["C04", "C05"]), ("k_refresh_m1_u02", 1, 0, 2, "quick", ["C05"]),
+        ("k_refresh_m3_u12", 3, 1, 2, "quick", ["C04"]), ("k_refresh_m3_u22", 3, 2, 2, "thorough", ["C04"]),
+        ("k_refresh_m2_u22", 2, 2, 2, "thorough", ["C05"]), ("k_refresh_m2_u23", 2, 2, 3, "thorough", ["C05"]),
+        ("k_refresh_m2_u02", 2, 0, 2, "thorough", ["C04", "C05"]), ("k_refresh_m2_u11_hyb", 2, 1, 1, "thorough", ["C04", "C11"]),
+        ("k_refresh_m1_u12_hyb", 1, 1, 2, "thorough", ["C05", "C11"])]:
+    H(n, "keys_model", props, tier, unwind=5, covers=["refreshed chain non-empty"],
+      desc="refresh_coordinate_keys: refreshed chain starts with the newest master secret, holds only secrets still in "
+           "the master chain, keeps every shared secret",
+      bounds=KL + "1 right; history of 4 pairwise distinct symbolic secrets h0..h3; master chain h[0..%d], "
+                  "user chain h[%d..=%d]" % (m, a, b), **_k)
+H("k_refresh_drops_unknown_right", "keys_model", ["C05", "C03"], "quick", unwind=4, covers=["one chain left"],
+  desc="refresh_coordinate_keys drops a right the master key no longer has, keeps the other",
+  bounds=KL + "1 right in the master key, user key with 2 rights; symbolic secrets", **_k)
+for n, ln, tier in [("k_rekey_chain1", 1, "quick"), ("k_rekey_chain2", 2, "thorough")]:
+    H(n, "keys_model", ["C06", "C04", "C11", "C09"], tier, unwind=4,
+      covers=["right was disabled before the rekey", "hybridized right"],
+      desc="rekey of a held right: exactly one secret prepended, same flavour, SAME activation flag; older secrets untouched",
+      bounds=KL + "1 right, chain of %d, activation flag and flavour symbolic, RNG symbolic" % ln, **_k)
+H("k_mpk_publishes_activated_fronts", "keys_model", ["C06", "C04", "C11", "C17"], "quick", unwind=4, covers=["one right disabled"],
+  desc="mpk(): publishes h*front.sk with the front's flavour iff the FRONT is activated; tracers published in order",
+  bounds=KL + "2 rights (chains of 2 and 1), activation flags and flavour symbolic", **dict(_k, timeout=1500))
+for n, tier in [("k_rekey_unknown_last", "quick"), ("k_rekey_unknown_first", "thorough")]:
+    H(n, "keys_model", ["C10", "C09"], tier, unwind=4, covers=["reached"],
+      desc="rekey over {held, unknown}: Err, and no right was rotated (both processing orders)",
+      bounds=KL + "1 right; request of 2 rights, one unknown", **_k)
+for n, tier in [("k_prune_chain1", "thorough"), ("k_prune_chain2", "thorough"), ("k_prune_chain3", "quick")]:
+    H(n, "keys_model", ["C05"], tier, unwind=5, covers=["reached"],
+      desc="prune leaves exactly the newest secret (flag kept) and does not touch other rights",
+      bounds=KL + "pruned chain of %s, a second right with 2 secrets" % n[-1], **_k)
+H("k_update_existing_right", "keys_model", ["C06", "C05", "C11", "C03"], "quick", unwind=4,
+  covers=["right disabled by the update", "hybridization dropped"],
+  desc="update_msk: flag of an existing right recomputed from the structure, hybridization kept only if still asked "
+       "for, chain preserved; a right outside the universe is dropped",
+  bounds=KL + "2 rights, old flag/flavour and new hint/status symbolic", **_k)
+H("k_update_new_right", "keys_model", ["C11", "C09"], "quick", unwind=4, covers=["hybridized new right"],
+  desc="update_msk: a new right is born activated with the flavour of its hint",
+  bounds=KL + "empty master key, 1 new right, hint symbolic", **_k)
+for n, tier in [("k_update_fails_bad_first", "quick"), ("k_update_fails_bad_last", "thorough")]:
+    H(n, "keys_model", ["C10", "C09"], tier, unwind=4, covers=["reached"],
+      desc="update_msk with a right born DecryptOnly: Err, and the master secrets are exactly as before",
+      bounds=KL + "1 right with 2 secrets; universe of 2 rights, both processing orders", **_k)
+_heavy = dict(build="model", timeout=1800, loops=SMALL_CMP, heavy=True)
+H("k_refresh_ok_keep", "keys_model", ["C09", "C04", "C17"], "quick", unwind=4, covers=["reached"],
+  desc="refresh(keep_old=true) of an issued key after a rekey: Ok, id kept, newest secret first, old one kept",
+  bounds=KL + "1 right with 2 secrets, registered id (concrete markers), symbolic secrets", **_heavy)
+H("k_refresh_unknown_id_keep", "keys_model", ["C10", "C17", "C08"], "quick", unwind=4, covers=["reached"],
+  desc="refresh of a key whose id is not registered: Err, user key (id, secrets) and master key unchanged",
+  bounds=KL + "1 right, id not in the registered set (concrete markers), symbolic secrets", **_heavy)
+for n in ["k_refresh_ok_nokeep", "k_refresh_deleted_keep", "k_refresh_deleted_nokeep", "k_refresh_unknown_id_nokeep"]:
+    H(n, "keys_model", ["C09", "C10"], "thorough", unwind=4, covers=["reached"],
+      desc="refresh through the public primitive (other flag / a right deleted since)", seedable=False,
+      bounds=KL + "1-2 rights, concrete ids, symbolic secrets (exceeded 36 GB during development: reported as "
+                  "inconclusive when it does again)", **_heavy)
+
+# ================================================================ parser (real build)
+H("q_paren_offset_is_byte_offset", "access_policy", ["C15"], "quick", build="real", unwind=6, timeout=900,
+  desc="find_matching_closing_parenthesis returns a byte offset on a char boundary pointing at the matching ')'",
+  bounds="every valid UTF-8 string of <= 4 bytes")
+H("q_attr_split_and_trim", "access_policy", ["C15"], "thorough", build="real", unwind=8, timeout=1800, seedable=False,
+  desc="QualifiedAttribute::try_from: no panic; Ok iff exactly one '::' with non-empty sides; names = trimmed sides",
+  bounds="every valid UTF-8 string of <= 5 bytes")
+
+# ================================================================ serialization (model build)
+_z = dict(build="model", timeout=1500, loops=CMP34)
+H("z_xenc_roundtrip", "serialization_model", ["C13", "C11"], "quick", unwind=4, covers=["hybridized encapsulation"],
+  desc="XEnc: write produces exactly length() bytes; read gives back an equal value, flavour included, nothing left over",
+  bounds="2 traps, 1 encapsulation, flavour symbolic, all bytes symbolic", **_z)
+H("z_usk_roundtrip", "serialization_model", ["C13", "C11", "C17"], "quick", unwind=4,
+  covers=["signed hybridized key", "unsigned key"],
+  desc="UserSecretKey round trip: id, tracing points, rights, chain order, flavour, presence of the signature",
+  bounds="2 markers, 2 points, 1 right (1-byte name) x 2 secrets, flavour and signature presence symbolic", **_z)
+H("z_msk_roundtrip", "serialization_model", ["C13", "C06", "C17"], "quick", unwind=4,
+  covers=["disabled right, signing key present", "no signing key"],
+  desc="MasterSecretKey round trip: tracing key, registered users, chains with activation flags and flavours, optional "
+       "signing key",
+  bounds="1 tracer, 1 user, 1 right x 2 secrets, empty access structure; flag, flavour, key presence symbolic", **_z)
+H("z_mpk_roundtrip", "serialization_model", ["C13", "C11"], "quick", unwind=4, covers=["hybridized public key"],
+  desc="MasterPublicKey round trip: tracers, right keys with flavour", bounds="2 tracers, 1 right, flavour symbolic", **_z)
+H("x_header_frames", "serialization_model", ["C12", "C13"], "quick", unwind=5,
+  covers=["present but empty metadata", "absent metadata"],
+  desc="EncryptedHeader / CleartextHeader framing: length() exact; absent and empty metadata are the same wire value",
+  bounds="metadata None / Some(0..3 symbolic bytes); classic encapsulation with 2 traps", **_z)
+for n, L in [("u_parse_xenc", 22), ("u_parse_usk", 12), ("u_parse_userid", 6), ("u_parse_tpk", 6)]:
+    H(n, "serialization_model", ["C14"], "quick" if n in ("u_parse_userid", "u_parse_tpk") else "thorough", unwind=L + 2,
+      covers=["some input parses", "some input is rejected"], seedable=False,
+      desc="T::read on arbitrary bytes: no panic, loops end, Vec::with_capacity requests stay proportional to the input",
+      bounds="every byte string of <= %d bytes (counts/lengths up to 2^64-1 via 10-byte LEB128 are in range where L >= 10)" % L,
+      **_z)
+H("u_use_degenerate_values", "serialization_model", ["C14"], "quick", unwind=4,
+  covers=["parsed an encapsulation without traps"],
+  desc="values only a parser can build (no trap, empty id, no tracer): tracing_level()/count() accessors do not panic",
+  bounds="3 concrete degenerate encodings, symbolic tag", **_z)
+
+# ================================================================ policy layer (model build)
+_p = dict(build="model", timeout=1500, loops=[[r"^memcmp$", 6]])
+H("e_dict_remove_preserves_order", "policy_model", ["C03"], "quick", unwind=5, covers=["middle entry removed"],
+  desc="Dict::remove / update_key keep the relative order and the values of the other entries and the index invariant",
+  bounds="Dict<u8,u8> with 3 entries, symbolic keys/values, symbolic removed key", **_p)
+H("e_attribute_ids_never_shared", "policy_model", ["C03"], "quick", unwind=5, covers=["an attribute was deleted before the add"],
+  desc="AccessStructure::add_attribute after a deletion: the new attribute's id differs from the id of every live attribute",
+  bounds="1 anarchy dimension (1-byte names), sequence add a, add b, del (a or b, symbolic), add c", **_p)
+H("h_bitor_tables", "policy_model", ["C11", "C06"], "quick", unwind=2, covers=["reached"],
+  desc="EncryptionHint::bitor / AttributeStatus::bitor / bool conversions: full truth tables (hint OR, status AND)",
+  bounds="all 4 x 4 combinations (symbolic)", **_p)
 
 CHECKS = {
-    "G1": dict(),
-    "G2": dict(),
-    "C04": dict(
-        bounds_note="R-iter: RevisionVec<u8,u8> instantiation, <=3 chains x <=3 elements, shape concrete per harness",
-        outside="chains longer than 3, more than 3 chains, the RightSecretKey instantiation of the iterator",
-        assumptions=[],
-    ),
+    "C01": dict(bounds_note="L-kem over models (1 target x 1 secret, tracing level 1) + L-iter on RevisionVec<u8,u8> shapes",
+                outside="policy expansion (rights of user/encryption policies), >1 target, real curves / ML-KEM / Keccak"),
+    "C02": dict(bounds_note="S-kem over models: 1 target, user key with 1 non-matching secret",
+                outside="policy expansion / Dimension::restrict, several rights per key, real primitives"),
+    "C03": dict(bounds_note="Dict<u8,u8> with 3 entries; one anarchy dimension with <= 3 attributes; key layer drops unknown rights",
+                outside="hierarchies with `after`, renames through the structure, interleaving with encapsulations"),
+    "C04": dict(bounds_note="RevisionVec shapes <= 3 chains x <= 3; refresh_coordinate_keys over histories of 4 secrets; rekey/mpk on 1-2 rights",
+                outside="more than 2 rights per key, chains longer than 3, end-to-end decaps after refresh (composition argued in DESIGN)"),
+    "C05": dict(bounds_note="prune on chains of 1..3; refresh_coordinate_keys on every (master, user) segment pair listed; update_msk with 2 rights",
+                outside="longer histories, deletion through the access structure (policy layer), end-to-end decaps"),
+    "C06": dict(bounds_note="one step from an arbitrary state: rekey, update_msk, mpk, MSK round trip, with symbolic activation flags",
+                outside="encaps error path through the policy layer; histories are covered inductively per operation, not enumerated"),
+    "C07": dict(bounds_note="single-component tamper of a classic 1-target encapsulation",
+                outside="hybridized encapsulations, several targets, structural rearrangements (swap/drop/duplicate), AES-GCM layer"),
+    "C08": dict(bounds_note="sign/verify over the random-oracle KMAC: 1-2 rights, names <= 1 byte, chains <= 2",
+                outside="hybridized secrets, longer names, keys issued by another master key"),
+    "C09": dict(bounds_note="error/success contract of rekey, update_msk, refresh, select_subkeys on 1-2 rights",
+                outside="AccessStructure edit contracts, usk_keygen, every reachable state (states of the stated shapes only)"),
+    "C10": dict(bounds_note="every failing step of rekey / update_msk / refresh(unknown id) in both processing orders",
+                outside="usk_keygen, failures caused by serialization errors (unreachable), states with >2 rights"),
+    "C11": dict(bounds_note="hint algebra tables; flavour through rekey/update/mpk/serialization; encapsulation mode selection",
+                outside="combine() over a structure (policy layer), E_j bound into the tag for hybridized encapsulations"),
+    "C12": dict(bounds_note="header framing only (metadata None/Some(<=3 bytes))",
+                outside="PKE round trip and authentication (AES-256-GCM and SHAKE are trusted dependencies, not executed)"),
+    "C13": dict(bounds_note="round trip + exact length() for XEnc, USK, MSK, MPK, headers at the listed shapes",
+                outside="AccessStructure/Dimension with content, use of deserialized objects later on, vectors of the pinned release"),
+    "C14": dict(bounds_note="T::read on all byte strings up to L bytes for XEnc(22)/USK(12)/UserId(6)/TPK(6); degenerate values; revision iterator on zero chains",
+                outside="MPK/MSK/AccessStructure/EncryptedHeader parsers, inputs longer than L, wall-clock/RSS of a real process"),
+    "C15": dict(bounds_note="find_matching_closing_parenthesis on all UTF-8 strings <= 4 bytes; QualifiedAttribute::try_from <= 5 bytes (thorough)",
+                outside="AccessPolicy::parse itself (recursive; not tractable), to_dnf equivalence, precedence"),
+    "C16": dict(bounds_note="two consecutive generate_user_id calls with symbolic RNG",
+                outside="encapsulation/nonce freshness, statistical quality of the CSPRNG, threads"),
+    "C17": dict(bounds_note="generate_user_id / refresh_id with tracing level 1; tracers in mpk; ids through MSK/USK round trips",
+                outside="usk_keygen, tracing levels > 1"),
 }
 
 
@@ -119,7 +311,7 @@ def select(prop, tier, seed=0):
     if tier == "thorough":
         return quick + thorough
     # VERIF_SEED rotates one thorough-tier harness into the quick set (it never replaces a symbolic variable)
-    extra = [h for h in thorough if HARNESSES[h].get("seedable", True) and HARNESSES[h].get("timeout", 600) <= 900]
+    extra = [h for h in thorough if HARNESSES[h].get("seedable", True) and not HARNESSES[h].get("heavy")]
     if extra and seed:
         quick = quick + [extra[seed % len(extra)]]
     return quick
@@ -132,6 +324,3 @@ def assumptions_for(h):
     if s.get("build", "real") == "model":
         out += MODEL_ASSUMPTIONS
     return out
-
-
-MODEL_ASSUMPTIONS = []
